@@ -143,7 +143,12 @@ def check_transparency(ctx, rng, fe):
                 B.ensure_pending()
                 await asyncio.sleep(0)
                 hs = header_set(rng)
-                env = rc.make_lp(fragment=wire, headers=hs)
+                # a Data packet may come back in an envelope that carries a PIT token (a forwarder echoing the token of the Interest
+                # it answers): one more header that is of no concern to the consumer
+                tok = rng.choice([None, b'\x01\x02\x03\x04', gen.rand_bytes(rng, 8), b'']) if wire[:1] == b'\x06' else None
+                env = rc.make_lp(fragment=wire, headers=hs, pit_token=tok)
+                if tok is not None:
+                    ctx.event('data-envelope-with-pit-token')
                 sa, sb = A.snapshot(), B.snapshot()
                 w = {'frontend': fe, 'kind': kind, 'headers': [hex(t) for t, v in hs], 'packet': wire if len(wire) < 300 else wire[:150]}
                 for T, data in ((A, wire), (B, env)):
